@@ -261,6 +261,9 @@ def interesting(t, defs, req, sizes=CONTAINER_SIZES, strlens=STRLENS):
         # a full nested value, and a sparse one (every optional / nil-able member absent): decoded over a fuller
         # destination, nothing of the old nested value may remain
         out = [base_value(t, defs, 2, 5), zero_struct(t["s"], defs)]
+        # a nested struct equal to its declared defaults (nothing of it but STOP is written; the reader's initialiser supplies it)
+        if defs[t["s"]].get("init"):
+            out.append(default_struct(t["s"], defs))
         # the first declared field zero (the struct's first machine word), the rest as in the full value
         fs = defs[t["s"]]["fields"]
         if len(fs) > 1:
